@@ -102,15 +102,20 @@ class UnitsProc(Process):
                               '_serializer': CTX['tag_serializer']},
                       # a quantity-valued variable with a custom serializer
                       'qtag': {'_default': 2.0 * units.g, '_emit': True,
-                               '_serializer': CTX['q_serializer']}}}
+                               '_serializer': CTX['q_serializer']},
+                      # a list of quantities (units taken from the first)
+                      'qlist': {'_default': [1.0 * units.g, 2.0 * units.g],
+                                '_updater': 'set', '_emit': True}}}
 
     def calculate_timestep(self, states):
         return 1
 
     def next_update(self, timestep, states):
         from vivarium.library.units import units
+        self.k = getattr(self, 'k', 0) + 1
         return {'u': {'mass': 500.0 * units.mg, 'tag': 1,
-                      'qtag': 1.0 * units.g}}
+                      'qtag': 1.0 * units.g,
+                      'qlist': [float(self.k) * units.g, 500.0 * units.mg]}}
 
 
 class Last(Step):
@@ -366,6 +371,7 @@ def body(ctx, cfg):
             exp[('u', 'mass')] = r['snap'][('u', 'mass')]
             exp[('u', 'tag')] = r['snap'][('u', 'tag')]
             exp[('u', 'qtag')] = r['snap'][('u', 'qtag')]
+            exp[('u', 'qlist')] = r['snap'][('u', 'qlist')]
         content.append(set(row) == set(exp))
         content.append(EQ(r['data']['time'], r['g']))
         for p in row:
@@ -387,6 +393,19 @@ def body(ctx, cfg):
                 content.append(row[p] == 'tag<%d>' % exp[p])
             elif p == ('u', 'qtag'):
                 content.append(row[p] == 'qtag<%.1f>' % exp[p].magnitude)
+            elif p == ('u', 'qlist'):
+                from vivarium.core.serialize import deserialize_value
+                from vivarium.library.units import units
+                ok_l = isinstance(row[p], list) and len(row[p]) == len(exp[p])
+                if ok_l:
+                    for got_q, want_q in zip(row[p], exp[p]):
+                        back = deserialize_value(got_q) if isinstance(
+                            got_q, str) else None
+                        ok_l = ok_l and back is not None and \
+                            back.units == units.g and abs(
+                                back.magnitude - want_q.to(units.g).magnitude
+                            ) < 1e-9
+                content.append(ok_l)
             elif p in exp:
                 content.append(EQ(row[p], exp[p]))
     ctx.claim('C12.content', AND(content), sig='content', info=info)
@@ -436,6 +455,8 @@ def body(ctx, cfg):
                 exp[('u', 'tag')] = 'tag<%d>' % r['snap'][('u', 'tag')]
                 exp[('u', 'qtag')] = 'qtag<%.1f>' % \
                     r['snap'][('u', 'qtag')].magnitude
+                exp[('u', 'qlist')] = ['!units[%s]' % str(v.to(_u.g))
+                                       for v in r['snap'][('u', 'qlist')]]
             ok.append(set(got) == set(exp))
             for p in got:
                 if p in exp:
